@@ -185,7 +185,17 @@ class PathCtx:
                 c = alg.const_value(p)
                 truth = (c > 0) if d.rel == "lt" else (c == 0)
                 if truth != d.val:
+                    if d.is_const == 2:
+                        raise Undecided("%s: auto-valid assumption contradicted on path %s (a normalisation test that the tracer "
+                                        "answered 'within threshold' is false under the precondition)" % (self.label, self.path.key))
                     return False
+            elif d.is_const == 2 and not getattr(self, "_av_noted", False):
+                # the tracer assumed "within the validity threshold" but the normal form cannot prove it
+                # (e.g. a small-angle exp is unit-norm only up to O(theta^2)): what is proved on this path
+                # holds for the inputs that take it; the sibling branch was not explored -> labelled stand-in
+                self._av_noted = True
+                self.rep.standin("%s/sibling_of_assumed_validity_test" % self.label, "FEAS", "not-explored",
+                                 {"path": self.path.key, "assumed": "|x-1| within eps", "unproved_margin": str(p)[:160]})
         return True
 
     def feasible(self, timeout_ms=3000):
